@@ -18,6 +18,12 @@ def _corrupt(events, k):
     """one recorded field changed: a note moved to another column / a note dropped from the kept part"""
     s = common.seed()
     circ = [i for i, e in enumerate(events) if e["g"] == "circle" and len(e["out"]) >= 1 and k > 1]
+    objs = [i for i, e in enumerate(events) if e["g"] == "objects" and len(e["starts"]) >= 2]
+    if s % 3 == 2 and objs:
+        i = objs[(s * 11 + 5) % len(objs)]
+        out = json.loads(json.dumps(events))
+        out[i]["ends"][0] = out[i]["starts"][0] - 1            # a negative duration
+        return out[: i + 1]
     sl = [i for i, e in enumerate(events) if e["g"] == "slider" and not e["single"] and len(e["endp"]) >= 1]
     out = json.loads(json.dumps(events))
     if s % 2 == 0 and circ:
